@@ -73,10 +73,10 @@ def cases(tier, seed):
         for seq in pick:
             yield {"family": fam, "seq": list(seq), "mseed": rnd.randrange(1000)}
         # other numerical settings at one call / a training step with part of the model frozen or under other settings
-        for new in ("pred_jitter", "train_step_frozen", "train_step_jitter", "pred_loose", "train_step_via_mll", "load_sd_partial", "fantasy_selfcheck", "fantasy_train", "set_data_refused"):
+        for new in ("pred_jitter", "train_step_frozen", "train_step_jitter", "pred_loose", "train_step_via_mll", "load_sd_partial", "fantasy_selfcheck", "fantasy_train", "set_data_refused", "set_data_inplace"):
             if new in ("fantasy_selfcheck", "fantasy_train") and (fam in VAR_FAMS or fam in ("sgpr", "batch_nan", "default_iterative")):
                 continue
-            if new == "set_data_refused" and (fam in VAR_FAMS or fam in ("hadamard_two_inputs", "modellist")):
+            if new in ("set_data_refused", "set_data_inplace") and (fam in VAR_FAMS or fam in ("hadamard_two_inputs", "modellist")):
                 continue
             if fam == "batch_nan" and new == "pred_jitter":
                 continue
